@@ -8,6 +8,7 @@ from dataclasses import dataclass, field
 from typing import Dict, Iterable, List, Optional, Tuple
 
 from .core import AnalysisError, src
+from .normalise import normalise_function
 
 PKG = 'gym_gridverse'
 EXCLUDED = {'gym_gridverse/rendering.py', 'gym_gridverse/rendering_gym.py',
@@ -164,7 +165,7 @@ class RepoIndex:
                         m.imports[local] = ('attr', modname, a.name)
         for st in m.tree.body:
             if isinstance(st, ast.FunctionDef):
-                m.functions[st.name] = Func(st.name, m, st)
+                m.functions[st.name] = Func(st.name, m, normalise_function(st))
             elif isinstance(st, ast.ClassDef):
                 m.classes[st.name] = self._index_class(m, st)
             elif isinstance(st, ast.Assign):
@@ -183,9 +184,9 @@ class RepoIndex:
                 if any(src(d).endswith('overload') for d in st.decorator_list):
                     continue
                 if any(src(d).endswith('.setter') for d in st.decorator_list):
-                    c.methods[st.name + '.setter'] = Func(st.name, m, st, c)
+                    c.methods[st.name + '.setter'] = Func(st.name, m, normalise_function(st), c)
                     continue
-                c.methods[st.name] = Func(st.name, m, st, c)
+                c.methods[st.name] = Func(st.name, m, normalise_function(st), c)
             elif isinstance(st, ast.Assign):
                 for t in st.targets:
                     if isinstance(t, ast.Name):
